@@ -267,8 +267,10 @@ class World:
             return None
         k = keys[pick % len(keys)]
         o = self.objs[k]
-        for attr in ("_function_cache", "_property_cache"):
-            if hasattr(o, attr):
+        # the memo caches live in instance attributes (today: _function_cache and
+        # _property_cache); any dict-valued instance attribute with 'cache' in its name counts
+        for attr, val in list(vars(o).items()):
+            if "cache" in attr.lower() and isinstance(val, dict):
                 try:
                     delattr(o, attr)
                 except AttributeError:
@@ -312,12 +314,15 @@ class World:
         out = []
         for k in self.live_keys():
             o = self.objs[k]
-            fc = getattr(o, "_function_cache", None) or {}
-            for fn, d in fc.items():
-                for a in d:
-                    out.append((str(k), fn, str(a)))
-            pc = getattr(o, "_property_cache", None) or {}
-            out.append((str(k), "props", len(pc)))
+            for attr, val in sorted(vars(o).items()):
+                if "cache" not in attr.lower() or not isinstance(val, dict):
+                    continue
+                for fn, d in val.items():
+                    if isinstance(d, dict):
+                        for a in d:
+                            out.append((str(k), str(getattr(fn, "__name__", fn)), str(a)))
+                    else:
+                        out.append((str(k), attr, str(getattr(fn, "__name__", fn))))
         return sorted(out)
 
 
